@@ -169,49 +169,51 @@ def fobs(r):
     return list(r["findings"]) + [{"id": "<stderr>", "key": "<stderr>" + s} for s in r["stray"]]
 
 
-def validate_cache_histories(histories, keep_dir=None, timeout=900):
-    """histories: list of (label, [cache event lists of consecutive runs]). One TLC run for all of them.
-    Returns (validated_runs, rejected list, states)."""
+def _validate_once(histories, timeout):
     work = vlib.mktmp("cachetrace")
     trace = os.path.join(work, "trace.ndjson")
     index = []
     with open(trace, "w") as f:
-        for label, runs in histories:
+        for hi, (label, runs) in enumerate(histories):
             for i, evs in enumerate(runs):
                 f.write(json.dumps({"e": "Header", "reset": i == 0, "w": "main", "label": label, "run": i}) + "\n")
-                index.append((label, i))
+                index.append((hi, i))
                 for e in evs:
                     f.write(json.dumps(e) + "\n")
-                    index.append((label, i))
+                    index.append((hi, i))
     r = vlib.tlc("CacheTrace", "CacheTrace.cfg", env={"TRACE": trace}, workers=1, timeout=timeout, dfs=True)
-    nruns = sum(len(runs) for _, runs in histories)
     if r.ok:
         shutil.rmtree(work, ignore_errors=True)
-        return nruns, [], r.distinct
+        return None, r.distinct, None
     m = re.search(r'REJECTED_AT_LINE",\s*(\d+)', r.out)
     if not m:
         raise vlib.InfraError("model failure in CacheTrace (rc=%s)\n%s" % (r.rc, r.out[-3000:]))
     line = int(m.group(1))
-    label, run = index[line - 1] if line - 1 < len(index) else ("?", -1)
-    if len(histories) > 1:
-        # isolate: validate each history alone
-        shutil.rmtree(work, ignore_errors=True)
-        ok = 0
-        rej = []
-        st = 0
-        for h in histories:
-            n, rj, s2 = validate_cache_histories([h], keep_dir, timeout)
-            ok += n if not rj else 0
-            rej += rj
-            st += s2
-        return ok, rej, st
+    hi, run = index[line - 1] if line - 1 < len(index) else (len(histories) - 1, -1)
     lines = open(trace).read().splitlines()
-    saved = None
-    if keep_dir:
-        os.makedirs(keep_dir, exist_ok=True)
-        saved = os.path.join(keep_dir, re.sub(r"[^A-Za-z0-9_.-]", "_", label) + ".cachetrace.ndjson")
-        shutil.copy(trace, saved)
-    rej = [{"label": label, "run": run, "line": line, "event": json.loads(lines[line - 1]) if line - 1 < len(lines) else None,
-            "prev": [json.loads(x) for x in lines[max(0, line - 6):line - 1]], "trace": saved}]
+    rej = {"label": histories[hi][0], "run": run, "line": line, "event": json.loads(lines[line - 1]) if line - 1 < len(lines) else None,
+           "prev": [json.loads(x) for x in lines[max(0, line - 6):line - 1]], "trace": None}
     shutil.rmtree(work, ignore_errors=True)
-    return 0, rej, r.distinct
+    return hi, r.distinct, rej
+
+
+def validate_cache_histories(histories, keep_dir=None, timeout=900, max_rejections=12):
+    """histories: list of (label, [cache event lists of consecutive runs sharing one build dir]).
+    All histories go into one TLC run (a Header with reset starts each); when one is rejected TLC tells which, it is
+    recorded and validation continues with the histories after it. Returns (validated_runs, rejected list, states)."""
+    rest = list(histories)
+    ok_runs = 0
+    rejected = []
+    states = 0
+    while rest:
+        hi, st, rej = _validate_once(rest, timeout)
+        states += st
+        if hi is None:
+            ok_runs += sum(len(runs) for _, runs in rest)
+            break
+        ok_runs += sum(len(runs) for _, runs in rest[:hi])
+        rejected.append(rej)
+        rest = rest[hi + 1:]
+        if len(rejected) >= max_rejections:
+            break
+    return ok_runs, rejected, states
